@@ -41,7 +41,8 @@ def prepare(run, target="model/BrainCheck.vo"):
     if rc != 0:
         violation(run, {"broken": "translator cannot read table.rs", "detail": msg}, nofail=True)
     if run.prop in ("C03", "C08", "C09", "C10"):
-        source_tie(run, ("brain",))
+        # C09's default and signal-fraction requests are resolved by the Poisson estimate, so poisson.rs concerns C09 as well
+        source_tie(run, ("mz", "poisson", "brain") if run.prop == "C09" else ("brain",))
     rc, out, _ = make([target])
     if rc != 0:
         violation(run, {"broken": "model files do not build", "detail": out[-3000:]}, nofail=True)
